@@ -9,7 +9,8 @@ static void setup() { Case c; c.set("phase", "setup"); set_current(c); deps::inj
 //       kind=seed secret birthday features mask randtop
 static std::string check_buffer(const uint8_t* buf, unsigned mask, const char** cls) {
     deps::Kit& k = deps::kit(0);
-    polyseed_enable_features(mask);
+    polyseed_enable_features((mask & 8u) ? (0xFFFFFFF8u | (mask & 7u)) : mask);   // bit 3 of the case's mask selects an enabling argument with every higher bit set; only the three user bits may count
+    mask &= 7u;
     // exactly-sized heap copy: reading a 33rd byte hits a red zone
     uint8_t* in = (uint8_t*)malloc(32); memcpy(in, buf, 32);
     size_t live_before = k.live.size();
@@ -34,7 +35,7 @@ static std::string check_buffer(const uint8_t* buf, unsigned mask, const char** 
 
 static std::string oracle(const Case& c) {
     deps::Kit& k = deps::kit(0); k.reset_all(); Evidence& ev = W().ev;
-    unsigned mask = (unsigned)c.u("mask", 7) & 7u;
+    unsigned mask = (unsigned)c.u("mask", 7) & 15u;
     if (c.get("kind") == "buf") {
         std::string b = c.bytes("buf"); b.resize(32, '\0'); const char* cls = "";
         std::string m = check_buffer((const uint8_t*)b.data(), mask, &cls); if (!m.empty()) return m;
@@ -55,7 +56,7 @@ static std::string oracle(const Case& c) {
     g::Obs o1 = g::observe(s, 5, 32), o2 = g::observe(s2, 5, 32);
     if (!(o1 == o2)) return "load(store(seed)) is a different seed: {" + o1.str() + "} vs {" + o2.str() + "}";
     // a canonical image stays accepted under any larger mask and the stricter masks reject it only as UNSUPPORTED
-    for (unsigned m2 = 0; m2 < 8; m2++) { const char* cls; std::string m = check_buffer(img.data(), m2, &cls); if (!m.empty()) return m; }
+    for (unsigned m2 = 0; m2 < 16; m2++) { const char* cls; std::string m = check_buffer(img.data(), m2, &cls); if (!m.empty()) return m; }
     s.reset(); s2.reset(); if (!k.live.empty()) return "seed blocks still allocated";
     ev.eval(); ev.nt(c); ev.count("seed-roundtrip"); ev.sample("seed", c);
     return "";
@@ -95,7 +96,7 @@ static void run() {
     // ---- generated buffers
     rc_run("c06-buffers", a.n(40000, 1500000), 100, [&]() {
         int kind = *rc::gen::weightedOneOf<int>({{5, rc::gen::just(0)}, {3, rc::gen::just(1)}, {1, rc::gen::just(2)}, {3, rc::gen::just(3)}});
-        auto sec = *g::secret19(); int bd = *g::birthday(); unsigned feat = *in_range<unsigned>(0, 32); unsigned mask = *in_range<unsigned>(0, 8);
+        auto sec = *g::secret19(); int bd = *g::birthday(); unsigned feat = *in_range<unsigned>(0, 32); unsigned mask = *in_range<unsigned>(0, 16);
         model::Seed s = g::to_seed(sec, bd, feat); auto img = model::image(s); const char* gn = "valid-image";
         if (kind == 0) { // 1-6 simultaneous field mutations, optionally with the check value recomputed
             int n = *in_range<int>(1, 7); gn = "multi-mutation";
